@@ -44,6 +44,11 @@ func init() {
 		"(reflect.Value).Len":           ext۰reflect۰Value۰Len,
 		"(reflect.Value).MapIndex":      ext۰reflect۰Value۰MapIndex,
 		"(reflect.Value).MapKeys":       ext۰reflect۰Value۰MapKeys,
+		"(reflect.Value).FieldByName":   ext۰reflect۰Value۰FieldByName,
+		"(reflect.rtype).FieldByName":   ext۰reflect۰rtype۰FieldByName,
+		"reflect.DeepEqual":             ext۰reflect۰DeepEqual,
+		"(reflect.Value).CanSet":        func(fr *frame, a []value) value { return false },
+		"(reflect.Value).Comparable":    func(fr *frame, a []value) value { return types.Comparable(rV2T(a[0]).t) },
 		"(reflect.Value).Slice":         ext۰reflect۰Value۰Slice,
 		"(reflect.Value).MapRange":      ext۰reflect۰Value۰MapRange,
 		"(*reflect.MapIter).Next":       ext۰reflect۰MapIter۰Next,
